@@ -563,7 +563,7 @@ pub struct InitCase {
     pub generated: bool,
     /// -v: None | "zod" | "none" | "yup"
     pub validation: Option<String>,
-    /// -o: "default" (none given) | "custom-new" | "custom-existing" | "custom-existing-force" | "explicit-tauri"
+    /// -o: "default" (none given) | "custom-new" | "custom-nested-new" | "custom-existing" | "custom-existing-force" | "explicit-tauri"
     pub out: String,
     pub visualize: bool,
 }
@@ -581,6 +581,7 @@ fn init_args(c: &InitCase) -> Vec<String> {
     }
     match c.out.as_str() {
         "custom-new" => a.extend(["-o".to_string(), "conf/new.json".to_string()]),
+        "custom-nested-new" => a.extend(["-o".to_string(), "config/tools/typegen.json".to_string()]),
         "custom-existing" => a.extend(["-o".to_string(), "custom.json".to_string()]),
         "custom-existing-force" => a.extend(["-o".to_string(), "custom.json".to_string(), "--force".to_string()]),
         "explicit-tauri" => a.extend(["-o".to_string(), "./alt-proj/tauri.conf.json".to_string()]),
@@ -609,6 +610,8 @@ pub fn eval_init(c: &InitCase) -> (Vec<Violation>, String) {
     // where the configuration goes
     let (conf_rel, tauri_style): (String, bool) = match c.out.as_str() {
         "custom-new" => ("conf/new.json".into(), false),
+        // (no directory `config` exists)
+        "custom-nested-new" => ("config/tools/typegen.json".into(), false),
         "custom-existing" | "custom-existing-force" => ("custom.json".into(), false),
         "explicit-tauri" => ("alt-proj/tauri.conf.json".into(), true),
         _ => (format!("{}/tauri.conf.json", project.trim_start_matches("./")), true),
@@ -645,6 +648,14 @@ pub fn eval_init(c: &InitCase) -> (Vec<Violation>, String) {
         }
         return (vs, format!("init-invalid:{}", r.status_string()));
     }
+    if !r.success() && c.out == "custom-nested-new" {
+        // refusing to write below a directory that does not exist is fine - with nothing written
+        if before != after {
+            let changed: Vec<&String> = after.keys().chain(before.keys()).filter(|k| before.get(*k) != after.get(*k)).collect::<BTreeSet<_>>().into_iter().collect();
+            vs.push(mk("written-before-rejecting", format!("init failed ({}) yet changed {:?}", r.status_string(), changed)));
+        }
+        return (vs, format!("init-refused-missing-dir:{}", r.status_string()));
+    }
     if !r.success() {
         vs.push(mk("valid-settings-rejected", format!("exit {} stderr {}", r.status_string(), r.stderr.trim())));
         return (vs, format!("init-rejected:{}", r.status_string()));
@@ -656,7 +667,7 @@ pub fn eval_init(c: &InitCase) -> (Vec<Violation>, String) {
         .keys()
         .chain(before.keys())
         .filter(|k| before.get(*k) != after.get(*k))
-        .filter(|k| **k != conf_key && !k.starts_with(&format!("{}/", out_prefix)) && !format!("{}/", out_prefix).starts_with(k.as_str()))
+        .filter(|k| **k != conf_key && !(k.ends_with('/') && conf_key.starts_with(k.as_str())) && !k.starts_with(&format!("{}/", out_prefix)) && !format!("{}/", out_prefix).starts_with(k.as_str()))
         .collect::<BTreeSet<_>>()
         .into_iter()
         .collect();
@@ -807,7 +818,7 @@ pub fn run(tier: Tier) -> CheckResult {
     for project in [None, Some("alt"), Some("missing"), Some("through-file"), Some("long-name")] {
         for generated in [false, true] {
             for validation in [None, Some("zod"), Some("none"), Some("yup"), Some("Zod"), Some("NONE")] {
-                for out in ["default", "custom-new", "custom-existing", "custom-existing-force", "explicit-tauri"] {
+                for out in ["default", "custom-new", "custom-nested-new", "custom-existing", "custom-existing-force", "explicit-tauri"] {
                     for visualize in [false, true] {
                         if visualize && !(generated && validation == Some("zod")) {
                             continue;
